@@ -1,4 +1,77 @@
-From KS Require Import lib.Base lib.Strings model.MetaStore.
+(* C16 — Committed offsets read back exactly; never-committed reads as -1.
+   Only statements closed by [exact]; proofs live in proofs/MetaStoreProofs.v.
+   The models are of the code with fixes/C16-offset-fetch-missing-and-inmem-key.patch. *)
+From Coq Require Import String.
+From KS Require Import lib.Base lib.Strings model.MetaStore proofs.MetaStoreProofs.
 Open Scope Z_scope.
-Example C16_nonvacuous : True.
-Proof. exact I. Qed.
+
+(* The statement, for one store: every history of commits / fetches / lookups, over
+   arbitrary byte strings as group and topic names, answers exactly what the
+   abstract map keyed by the structured triple (group, topic, partition) answers. *)
+Definition C16_statement (run : list op -> list res) : Prop :=
+  forall ops, forallb is_coff_op ops = true -> run ops = snd (spec_run spec_empty ops).
+
+(* the abstract map is "the last commit to exactly that triple wins" *)
+Theorem C16_spec_is_last_commit : forall ops k,
+  fst (spec_run spec_empty ops) k = last_commit ops k.
+Proof. intros ops k. rewrite spec_run_state. now destruct (last_commit ops k). Qed.
+Print Assumptions C16_spec_is_last_commit.
+
+(* (1) the in-memory store refines it for all names *)
+Theorem C16_refines_spec : forall brokers,
+  C16_statement (fun ops => snd (im_run (im_new brokers) ops)).
+Proof. intros b ops H. exact (im_run_spec ops _ _ H (im_new_rel b)). Qed.
+Print Assumptions C16_refines_spec.
+
+(* (2) the etcd store does not: open finding etcd-topic-name-with-slash *)
+Theorem C16_etcd_refuted : ~ C16_statement (fun ops => snd (et_run (et_new 1) ops)).
+Proof.
+  intros H.
+  specialize (H [OCommit (lit "a/offsets/b") (lit "c") 0 7 (lit "x"); OFetchOffset (lit "a") (lit "b/offsets/c") 0] eq_refl).
+  vm_compute in H. discriminate.
+Qed.
+Print Assumptions C16_etcd_refuted.
+
+(* ... and it does on the complement of the finding's input class: topics without
+   '/', whatever the group ids contain *)
+Theorem C16_etcd_partial : forall brokers ops,
+  forallb is_coff_op ops = true -> Forall op_topic_noslash ops ->
+  snd (et_run (et_new brokers) ops) = snd (spec_run spec_empty ops).
+Proof. intros b ops H Hn. exact (et_run_spec ops _ _ H Hn (et_new_rel b)). Qed.
+Print Assumptions C16_etcd_partial.
+
+(* (3) OffsetFetch: per requested (topic, partition) the last commit of that group to
+   exactly that triple, and offset -1 with empty metadata when there is none *)
+Theorem C16_missing_is_minus_one : forall brokers ops g req,
+  forallb is_coff_op ops = true ->
+  offset_fetch (im_lookup (fst (im_run (im_new brokers) ops))) g req
+  = map (fun tp => (fst tp, map (fun p => fetch_answer (last_commit ops (g, fst tp, p)) p) (snd tp))) req.
+Proof. exact offset_fetch_im. Qed.
+Print Assumptions C16_missing_is_minus_one.
+
+Theorem C16_missing_is_minus_one_etcd : forall brokers ops g req,
+  forallb is_coff_op ops = true -> Forall op_topic_noslash ops -> Forall (fun tp => noslash (fst tp)) req ->
+  offset_fetch (et_lookup (fst (et_run (et_new brokers) ops))) g req
+  = map (fun tp => (fst tp, map (fun p => fetch_answer (last_commit ops (g, fst tp, p)) p) (snd tp))) req.
+Proof. exact offset_fetch_et. Qed.
+Print Assumptions C16_missing_is_minus_one_etcd.
+
+(* the two fixed defects, on the models of the old code: the "%s:%s:%d" key and the
+   forwarded 0 *)
+Example C16_old_code_witnesses :
+  old_fetch (old_commit [] (lit "a:b") (lit "c") 0 (7, lit "x")) (lit "a") (lit "b:c") 0 = Some (7, lit "x") /\
+  offset_fetch_part_old (im_lookup (im_new 1) (lit "g") (lit "orders") 0) 0 = (0, 0, [], 0).
+Proof. vm_compute. split; reflexivity. Qed.
+
+Example C16_nonvacuous :
+  let ops := [OCommit (lit "a:b") (lit "c") 0 7 (lit "x"); OCommit (lit "a") (lit "b:c") 0 9 []; OCommit (lit "a:b") (lit "c") 0 8 []] in
+  forallb is_coff_op ops = true /\ Forall op_topic_noslash ops /\
+  offset_fetch (im_lookup (fst (im_run (im_new 1) ops))) (lit "a:b") [(lit "c", [0; 1])]
+    = [(lit "c", [(0, 8, [], 0); (1, -1, [], 0)])] /\
+  offset_fetch (et_lookup (fst (et_run (et_new 1) ops))) (lit "a") [(lit "b:c", [0])]
+    = [(lit "b:c", [(0, 9, [], 0)])].
+Proof.
+  cbv zeta. split; [reflexivity|]. split.
+  - repeat constructor; vm_compute; intuition discriminate.
+  - vm_compute. split; reflexivity.
+Qed.
